@@ -58,7 +58,7 @@ theorem step_frame (s : St) (op : Op) : (step s op).1 = s ∨ (step s op).2.isOk
       · right
         cases hr : createOrAdd s m [] with
         | mk s' r => rw [hr] at h; cases r <;> simp_all [Res.isOk]
-  | update m mask w => exact updateMode_frame s m mask w
+  | update m mask w => simp only [step]; split; simp; exact updateMode_frame s m mask w
   | delete id am ex => exact deleteMode_frame s id am ex
   | setActive m => exact setActive_frame s m
   | changeActive id now => exact changeActive_frame s id now
@@ -122,7 +122,11 @@ theorem modeEvents_frame (s : St) (op : Op) (h : (step s op).2.isOk = false) : m
       apply emitCreateOrAdd_frame
       cases hr : createOrAdd s m [] with
       | mk s' r => rw [hr] at h; cases r <;> simp_all [Res.isOk]
-  | update m mask w => exact emitUpdate_frame s m mask w h
+  | update m mask w =>
+    simp only [modeEvents, step] at h ⊢
+    split
+    · rfl
+    · rename_i h2; simp only [h2, if_false] at h; exact emitUpdate_frame s m mask w h
   | delete id am ex => exact emitDelete_frame s id am ex h
   | sCreate m cands =>
     simp only [modeEvents, step] at h ⊢
